@@ -120,16 +120,20 @@ variable (chk : Bytes → Bytes → Bytes → Bool → Bool)
 
 abbrev specTx (t : TxCtx) : Consensus.TxCtx := ⟨t.version, t.lockTime, t.sequence⟩
 
+/-- the VM `cfg` run on `stack` gives Core's verdict and, on success, Core's final stack -/
+def EvalAgree (cfg : Config) (stack : List Bytes) : Prop :=
+  (evalScript (stdEnv chk) cfg stack).toOption.map (·.stack) =
+    (Consensus.evalScript (specChk chk) stack cfg.script (Flags.ofBits cfg.flags)
+      ⟨cfg.ctx.version, cfg.ctx.lockTime, cfg.ctx.sequence⟩ (if cfg.witness then .witnessV0 else .base)).toOption
+
 /-- one pass of the loop of `check_solution` (run the VM, truth test) against `EvalScript` + the truth test -/
-theorem runStage_spec (hchk : ChkWF chk) (c : SolCtx) (stg : Stage)
-    (hw : hasFlag stg.flags VERIFY_MINIMALIF = true → stg.witness = true)
-    (hwp : hasFlag stg.flags VERIFY_WITNESS_PUBKEYTYPE = true → stg.witness = true)
-    (hdel : SigDelShared chk ⟨stg.puzzle, c.tx, stg.flags, stg.witness⟩ stg.solutionStackPy.reverse) :
+theorem runStage_agree (c : SolCtx) (stg : Stage)
+    (he : EvalAgree chk ⟨stg.puzzle, c.tx, stg.flags, stg.witness⟩ stg.solutionStackPy.reverse) :
     (runStage (stdEnv chk) c stg).toOption =
       (Consensus.evalScript (specChk chk) stg.solutionStackPy.reverse stg.puzzle (Flags.ofBits stg.flags) (specTx c.tx)
         (if stg.witness then .witnessV0 else .base)).toOption.bind
         (fun stk => if truthy stk then some stk.reverse else none) := by
-  have he := evalScript_eq_all chk ⟨stg.puzzle, c.tx, stg.flags, stg.witness⟩ hw hwp hchk stg.solutionStackPy.reverse hdel
+  unfold EvalAgree at he
   simp only at he
   unfold runStage
   rw [← he]
@@ -142,6 +146,17 @@ theorem runStage_spec (hchk : ChkWF chk) (c : SolCtx) (stg : Stage)
     | cons top rest =>
       simp only [boolFromScriptBytes_false, truthy, pure, Except.pure]
       by_cases hc : castToBool top = true <;> simp [hc]
+
+theorem runStage_spec (hchk : ChkWF chk) (c : SolCtx) (stg : Stage)
+    (hw : hasFlag stg.flags VERIFY_MINIMALIF = true → stg.witness = true)
+    (hwp : hasFlag stg.flags VERIFY_WITNESS_PUBKEYTYPE = true → stg.witness = true)
+    (hdel : SigDelShared chk ⟨stg.puzzle, c.tx, stg.flags, stg.witness⟩ stg.solutionStackPy.reverse) :
+    (runStage (stdEnv chk) c stg).toOption =
+      (Consensus.evalScript (specChk chk) stg.solutionStackPy.reverse stg.puzzle (Flags.ofBits stg.flags) (specTx c.tx)
+        (if stg.witness then .witnessV0 else .base)).toOption.bind
+        (fun stk => if truthy stk then some stk.reverse else none) :=
+  runStage_agree chk c stg
+    (evalScript_eq_all chk ⟨stg.puzzle, c.tx, stg.flags, stg.witness⟩ hw hwp hchk stg.solutionStackPy.reverse hdel)
 
 /-! ### the witness program -/
 
